@@ -31,7 +31,9 @@ P = dict(
           "operation is applied to a freshly built S (built through insert, in four different orders) once for every argument: every key 0..7, every "
           "iterator position, every iterator pair, every hint position, every key sequence of length <= 3 (range insert), every predicate over the universe "
           "(erase_if), every other set T (swap, replace, assignment, relational operators; for the stateful comparator T in both comparator states), every "
-          "permutation of S with one duplicate (constructors), every heterogeneous range key [lo,hi] over 0..7 (matches 0, 1 or several elements). "
+          "permutation of S with one duplicate (constructors), every heterogeneous range key [lo,hi] over 0..7 (matches 0, 1 or several elements), and "
+          "every key/value argument passed as a REFERENCE TO THE SET'S OWN ELEMENT at every position (erase(key), insert, emplace, hinted forms, all lookups; "
+          "the model std::set is driven with the same aliasing), self copy/move assignment, erase(range) followed by use of the returned position. "
           "Random case = one 40-operation history. One evaluation = one tetl call whose result and resulting state were compared with the std::set model. "
           "Distinct = distinct hash of (configuration, set before, overload, arguments); non-trivial = the set is non-empty or the operation modifies it."),
     units=[
